@@ -113,6 +113,7 @@ def run(pid, tier, seed, njobs=None, only_compute=False):
     # bounded-exhaustive exploration of tiny programs on the real crate, every execution replayed through Flurry.tla
     import explore
     cov["bounded_exhaustive_exploration"] = explore.leg(pid, tier, seed, verdict)
+    cov["bounded_exhaustive_exploration_tree_bins"] = explore.tree_leg(pid, tier, seed, verdict)
     lib.add_spec_coverage(cov, pid, tier)
     rc = verdict.finish()
     lib.write_evidence(pid, tier, seed, "model_checking", cov, time.time() - t0, len(verdict.violations),
